@@ -126,6 +126,95 @@ def pair_index(pairs):
 
 
 # --------------------------------------------------------------------------
+# shared-factory sequences: families of types that agree in kind / bits / sign
+# (and name) but differ in max_val_po2 or int_bits, or that share all numeric
+# fields and differ only in name / construction route
+
+
+def variant_families(tier="quick"):
+  """list of lists of type descriptions; neighbours inside a family are the
+  types a stale per-factory state would confuse."""
+  fams = []
+  for b in ([3, 4, 6] if tier == "quick" else [2, 3, 4, 5, 6, 8]):
+    for s in (1, 0):
+      fam = [{"k": "po2", "bits": b, "signed": s, "max": c} for c in (-1, 0, 1, 2) if _po2_ok(b, s, c)]
+      fam += [{"k": "po2", "bits": b, "signed": s, "max": None, "mv": v} for v in (3, 6) if _mv_ok(b, s, v)]
+      fam.append({"k": "po2", "bits": b, "signed": s, "max": None})
+      fams.append(fam)
+  for b in ([2, 4, 8] if tier == "quick" else [1, 2, 3, 4, 6, 8, 12]):
+    for s in (1, 0):
+      fams.append([{"k": "fixed", "bits": b, "int": i, "signed": s} for i in range(0, b + 1)])
+  # same numeric fields, different class / name / route
+  fams.append([{"k": "binary", "via": "impl"}, {"k": "binary", "q": "stochastic_binary", "via": "factory"},
+               {"k": "binary", "via": "factory"}])
+  fams.append([{"k": "binary01", "via": "impl"}, {"k": "binary01", "q": "bernoulli", "via": "factory"},
+               {"k": "fixed", "bits": 1, "int": 1, "signed": 0, "q": "quantized_relu", "via": "factory"},
+               {"k": "fixed", "bits": 1, "int": 1, "signed": 0, "via": "impl"}])
+  fams.append([{"k": "ternary", "via": "impl"}, {"k": "ternary", "q": "stochastic_ternary", "via": "factory"},
+               {"k": "fixed", "bits": 2, "int": 2, "signed": 1, "via": "impl"}])
+  fams.append([{"k": "fixed", "bits": 4, "int": 1, "signed": 1, "via": "impl"},
+               {"k": "fixed", "bits": 4, "int": 1, "signed": 1, "q": "quantized_ulaw", "via": "factory"},
+               {"k": "fixed", "bits": 4, "int": 1, "signed": 1, "q": "quantized_relu_leaky", "via": "factory"},
+               {"k": "fixed", "bits": 4, "int": 1, "signed": 0, "q": "quantized_bits", "via": "factory"},
+               {"k": "fixed", "bits": 4, "int": 1, "signed": 0, "via": "factory"}])
+  return fams
+
+
+def seq_partners():
+  return [{"k": "fixed", "bits": 4, "int": 1, "signed": 1}, {"k": "fixed", "bits": 4, "int": 2, "signed": 0},
+          {"k": "po2", "bits": 3, "signed": 1, "max": None}, {"k": "po2", "bits": 3, "signed": 0, "max": 1},
+          {"k": "ternary"}, {"k": "binary"}, {"k": "binary01"}]
+
+
+def orders(fam):
+  """ascending, descending and an interleaved order of a family."""
+  n = len(fam)
+  inter = [fam[i // 2] if i % 2 == 0 else fam[n - 1 - i // 2] for i in range(n)]
+  return [list(fam), list(reversed(fam)), inter]
+
+
+def pair_sequences(tier="quick"):
+  """deterministic list of sequences of (w, x) description pairs, each to be
+  served by ONE factory instance."""
+  out = []
+  n = 0
+  for fam in variant_families(tier):
+    for p in seq_partners():
+      for role in ("w", "x"):
+        for od in orders(fam):
+          n += 1
+          seq = []
+          for j, d in enumerate(od):
+            d2, p2_ = with_via(d, n + j), with_via(p, (n + j) // 2)
+            seq.append([d2, p2_] if role == "w" else [p2_, d2])
+          out.append(seq)
+  # both operands vary
+  fams = variant_families(tier)
+  for a in range(0, len(fams) - 1, 2):
+    fa, fb = fams[a], fams[a + 1]
+    seq = []
+    for j in range(max(len(fa), len(fb))):
+      seq.append([with_via(fa[j % len(fa)], j), with_via(fb[(j * 2 + 1) % len(fb)], j // 2)])
+    out.append(seq)
+    out.append(list(reversed(seq)))
+  return out
+
+
+def variant_strategy(st):
+  """Hypothesis: a short list of variants of one drawn family member."""
+  fams = variant_families("thorough")
+
+  @st.composite
+  def fam_members(draw):
+    fam = draw(st.sampled_from(fams))
+    k = draw(st.integers(1, min(4, len(fam))))
+    idx = draw(st.lists(st.integers(0, len(fam) - 1), min_size=k, max_size=k))
+    via = draw(st.sampled_from(["impl", "factory"]))
+    return [fam[i] if "via" in fam[i] else dict(fam[i], via=via) for i in idx]
+  return fam_members()
+
+
+# --------------------------------------------------------------------------
 # Hypothesis strategies
 
 
